@@ -93,7 +93,16 @@ public:
 
     void bvisit(const HadamardProduct &x)
     {
-        check_vector(x.get_factors());
+        // symmetric factors give a symmetric product; a non-symmetric
+        // factor decides nothing (its asymmetric entries may be zeroed)
+        for (auto &elt : x.get_factors()) {
+            elt->accept(*this);
+            if (not is_true(is_symmetric_)) {
+                is_symmetric_ = tribool::indeterminate;
+                return;
+            }
+        }
+        is_symmetric_ = tribool::tritrue;
     }
 
     tribool apply(const MatrixExpr &s)
